@@ -985,9 +985,12 @@ class FakeTime:
 class HostWorld:
     """The real Reduino host modules executed under patched builtins, isolated from sys.modules."""
 
-    def __init__(self, src_root: Optional[str] = None, stub_top=True, patched=True):
+    def __init__(self, src_root: Optional[str] = None, stub_top=True, patched=True, overrides=None,
+                 real_prefixes=()):
         self.src_root = src_root or REPO_SRC
         self.patched = patched
+        self.overrides = dict(overrides or {})      # module name -> fake module object (effects stubbed)
+        self.real_prefixes = tuple(real_prefixes)    # Reduino.* sub-packages taken from the stock import system
         self.modules = {}
         self.fake_sys = types.SimpleNamespace(modules=self.modules, argv=[], path=[], stderr=sys.stderr,
                                               stdout=sys.stdout, version_info=sys.version_info,
@@ -1023,6 +1026,15 @@ class HostWorld:
             self.load(parent)
         path, is_pkg = self._file_for(name)
         if path is None:
+            d = os.path.join(self.src_root, *name.split("."))
+            if os.path.isdir(d):      # namespace package (no __init__.py)
+                mod = types.ModuleType(name)
+                mod.__path__ = [d]
+                mod.__package__ = name
+                self.modules[name] = mod
+                if "." in name:
+                    setattr(self.modules[name.rsplit(".", 1)[0]], name.rsplit(".", 1)[1], mod)
+                return mod
             raise ImportError(f"host world: no module {name}")
         mod = types.ModuleType(name)
         mod.__file__ = path
@@ -1061,6 +1073,12 @@ class HostWorld:
         else:
             absname = name
         top = absname.split(".")[0]
+        if absname in self.overrides:
+            return self.overrides[absname]
+        if top == "Reduino" and any(absname == p or absname.startswith(p + ".") for p in self.real_prefixes):
+            import importlib as _il
+            mod = _il.import_module(absname)
+            return mod if fromlist else _il.import_module(top)
         if top == "Reduino":
             mod = self.load(absname)
             if fromlist:
